@@ -38,13 +38,46 @@ MODELLED = [
     ("span_sub", "prqlc/prqlc-parser/src/span.rs", r"impl\s+Sub<usize>\s+for\s+Span"),
     ("interp_call", "prqlc/prqlc-parser/src/parser/expr.rs", r"fn\s+interpolation<'a,\s*I>\s*\("),
     ("reason_display", "prqlc/prqlc-parser/src/error.rs", r"impl\s+std::fmt::Display\s+for\s+Reason"),
+    # the id loader around IdGenerator::skip (Model/RangeArith.v id_load)
+    ("id_load", "prqlc/prqlc/src/utils/id_gen.rs", r"pub\s+fn\s+load\s*\("),
+    ("id_fold_cid", "prqlc/prqlc/src/utils/id_gen.rs", r"fn\s+fold_cid\s*\("),
+    ("id_fold_table", "prqlc/prqlc/src/utils/id_gen.rs", r"fn\s+fold_table\s*\(&mut self"),
+    # negation of a frame bound (Model/RangeArith.v parse_bound / frame_bounds)
+    ("try_into_window_frame", "prqlc/prqlc/src/sql/gen_expr.rs", r"fn\s+try_into_window_frame\s*\("),
+    # the formatter's width arithmetic (Model/WidthArith.v)
+    ("write_or_expand", "prqlc/prqlc/src/codegen/mod.rs", r"fn\s+write_or_expand\s*\("),
+    ("consume_width", "prqlc/prqlc/src/codegen/mod.rs", r"fn\s+consume_width\s*\("),
+    ("reset_line", "prqlc/prqlc/src/codegen/mod.rs", r"fn\s+reset_line\s*\("),
+    ("consume", "prqlc/prqlc/src/codegen/mod.rs", r"fn\s+consume<S"),
+    ("write_opt_default", "prqlc/prqlc/src/codegen/mod.rs", r"impl\s+Default\s+for\s+WriteOpt"),
+    ("write_opt_new_width", "prqlc/prqlc/src/codegen/mod.rs", r"fn\s+new_width\s*\("),
+    ("pl_to_prql", "prqlc/prqlc/src/lib.rs", r"pub\s+fn\s+pl_to_prql\s*\("),
+    # guards of the sites reviewed at the last re-baselining (Model/ReviewedSites.v)
+    ("ident_pop_front", "prqlc/prqlc-parser/src/parser/pr/ident.rs", r"pub\s+fn\s+pop_front\s*\("),
+    ("ident_prepend", "prqlc/prqlc-parser/src/parser/pr/ident.rs", r"pub\s+fn\s+prepend\s*\("),
+    ("only_equals", "prqlc/prqlc/src/sql/pq/preprocess.rs", r"fn\s+only_equals\s*\("),
+    ("used_behind", "prqlc/prqlc/src/sql/pq/preprocess.rs", r"fn\s+used_behind\s*\("),
+    ("lookup_cid", "prqlc/prqlc/src/semantic/lowering.rs", r"fn\s+lookup_cid\s*\("),
 ]
-# statement-level excerpts (anchored regex over whitespace-normalised source; group 1 is pinned)
+# statement-level excerpts (anchored regex over whitespace-normalised, comment-free source; group 1 is pinned;
+# the last field says whether string literal contents are kept (True) or blanked (False) in the text searched)
 EXCERPTS = [
     ("limit_offset", "prqlc/prqlc/src/sql/gen_query.rs",
-     r"(let take = range_of_ranges\(ranges\)\?; let too_large = [^;]*; let offset = match take\.start \{[^{}]*\}; let limit = match take\.end \{[^{}]*\};)"),
+     r"(let take = range_of_ranges\(ranges\)\?; let too_large = [^;]*; let offset = match take\.start \{[^{}]*\}; let limit = match take\.end \{[^{}]*\};)", False),
     ("interp_rebase", "prqlc/prqlc-parser/src/parser/interpolation.rs",
-     r"(let span = Span \{ start: .*?, end: .*?, source_id: span_base\.source_id, \};)"),
+     r"(let span = Span \{ start: .*?, end: .*?, source_id: span_base\.source_id, \};)", False),
+    ("static_eval_neg", "prqlc/prqlc/src/semantic/resolver/static_eval.rs",
+     r"(\"std\.neg\" => match &args\[0\]\.kind \{ ExprKind::Literal\(Literal::Integer\(val\)\) => \{.*?\} ExprKind::Literal\(Literal::Float\(val\)\) => [^,]*, _ => \(\), \},)", True),
+    ("names_relative", "prqlc/prqlc/src/semantic/resolver/names.rs",
+     r"(let mut found = None; if !self\.current_module_path\.is_empty\(\) && ident\.name != \"\*\" \{ let mut rel = .*? rel = rel\.pop_front\(\)\.1\.unwrap\(\); \} \})", True),
+    ("distinct_enumerate", "prqlc/prqlc/src/sql/pq/preprocess.rs",
+     r"(for \(position, transform\) in pipeline\.clone\(\)\.into_iter\(\)\.enumerate\(\) \{)", False),
+    ("distinct_rest_behind", "prqlc/prqlc/src/sql/pq/preprocess.rs",
+     r"(&& only_these_used\(&pipeline\[position \+ 1\.\.\], &partition, ctx\);)", False),
+    ("except_enumerate", "prqlc/prqlc/src/sql/pq/preprocess.rs",
+     r"(let used_behind = used_behind\(&pipeline\); let mut res = Vec::with_capacity\(pipeline\.len\(\)\); for \(position, t\) in pipeline\.into_iter\(\)\.enumerate\(\) \{)", False),
+    ("intersect_enumerate", "prqlc/prqlc/src/sql/pq/preprocess.rs",
+     r"(let used_behind = used_behind\(&pipeline\); let mut res = Vec::with_capacity\(pipeline\.len\(\)\); let mut pipeline = pipeline\.into_iter\(\)\.enumerate\(\)\.peekable\(\); while let Some\(\(position, t\)\) = pipeline\.next\(\) \{)", False),
 ]
 
 
@@ -86,6 +119,31 @@ def strip_cfg_test(src, m):
                     declared.append(d.group(1))
             else:
                 end = match_brace(m, j) + 1
+        elif re.match(r"(if|while|for|loop|match|unsafe)\b", m[i:i + 8]):
+            # an expression statement that ends with its block (`#[cfg(..)] if c { .. } else { .. }`): there is no ';',
+            # the statement is over at the closing brace of the last block of the if/else chain
+            j = i
+            while True:
+                depth = 0
+                while j < n and not (m[j] == "{" and depth == 0):
+                    if m[j] in "([":
+                        depth += 1
+                    elif m[j] in ")]":
+                        depth -= 1
+                    elif m[j] in ";}" and depth <= 0:
+                        raise ExtractError("#[cfg(..)] block statement without a block")
+                    j += 1
+                if j >= n:
+                    raise ExtractError("#[cfg(..)] block statement without a block")
+                j = match_brace(m, j) + 1
+                k = j
+                while k < n and m[k].isspace():
+                    k += 1
+                if re.match(r"else\b", m[k:k + 5]):
+                    j = k + 4
+                    continue
+                break
+            end = j
         else:
             # a statement / use declaration: up to the first ';' outside brackets
             depth = 0
@@ -192,6 +250,21 @@ def arith_count(body_masked):
     return n
 
 
+def comment_free(raw, msk):
+    """raw text with comments blanked (as in the masked text) and string literal contents kept"""
+    keep = []
+    instr = False
+    for a, b in zip(raw, msk):
+        if b == '"':
+            instr = not instr
+            keep.append(a)
+        elif instr:
+            keep.append(a)
+        else:
+            keep.append(b)
+    return "".join(keep)
+
+
 def norm(text):
     return re.sub(r"\s+", " ", text).strip()
 
@@ -246,32 +319,21 @@ def extract():
         # comments are not part of the pin: rebuild from masked text but keep string contents from src
         mm = re.search(pat, m2)
         i0 = mm.start()
-        raw = s2[i0:i0 + len(text)]
-        msk = m2[i0:i0 + len(text)]
-        # drop comments: positions where masked is blank but raw is not, outside string literals
-        keep = []
-        instr = False
-        for a, b in zip(raw, msk):
-            if b == '"':
-                instr = not instr
-                keep.append(a)
-            elif instr:
-                keep.append(a)
-            else:
-                keep.append(b)
-        modelled.append((name, norm("".join(keep))))
+        modelled.append((name, norm(comment_free(s2[i0:i0 + len(text)], m2[i0:i0 + len(text)]))))
         arith[rel] = arith.get(rel, 0) + arith_count(body_m)
-    for name, rel, pat in EXCERPTS:
+    for name, rel, pat, keep_strings in EXCERPTS:
         if rel not in texts:
             raise ExtractError("excerpt %s: file %s missing" % (name, rel))
         s2, m2 = texts[rel]
         # comment-free, whitespace-normalised text
-        flat = norm(m2)
-        mm = re.search(pat, flat)
-        if not mm:
+        flat = norm(comment_free(s2, m2)) if keep_strings else norm(m2)
+        found = list(re.finditer(pat, flat))
+        if not found:
             raise ExtractError("excerpt %s no longer has the modelled shape in %s" % (name, rel))
-        modelled.append((name, mm.group(1)))
-        arith[rel] = arith.get(rel, 0) + arith_count(mm.group(1))
+        if len(found) > 1:
+            raise ExtractError("excerpt %s is ambiguous in %s (%d matches)" % (name, rel, len(found)))
+        modelled.append((name, found[0].group(1)))
+        arith[rel] = arith.get(rel, 0) + arith_count(re.sub(r'"[^"]*"', '""', found[0].group(1)))
     for rel, n in sorted(arith.items()):
         if n:
             sites.append((rel, "arith", n))
@@ -342,6 +404,7 @@ def write_baseline():
     v += "   Props/C12.v states  within GenSites.sites baseline = true  and  same_text GenSites.modelled modelled_expected = true:\n"
     v += "   a new unwrap/expect/panic!/todo!/assert!/index in library code, or an edit to a modelled function,\n"
     v += "   is an unproved obligation until this table is re-recorded (after re-reading the new code). *)\n"
+    v += REVIEW_NOTE
     v += "From Coq Require Import List NArith Bool.\nFrom PV Require Import Lib.ListX.\nImport ListNotations.\nLocal Open Scope N_scope.\n\n"
     v += "Definition baseline : list (str * str * N) :=\n  [ " + ";\n    ".join(
         "(%s, %s, %d) (* %s %s *)" % (codes(f), codes(k), n, f, k) for f, k, n in info["sites"]) + " ].\n\n"
@@ -353,6 +416,33 @@ def write_baseline():
     open(os.path.join(ROOT, "coq", "Model", "SitesBaseline.v"), "w").write(v)
     print("baseline written: %d (file, kind) rows, totals %s" % (len(info["sites"]), info["total"]))
 
+
+REVIEW_NOTE = """(* REVIEW LOG of the last re-recording (/repo at 2a611aa, 46 commits after b55902d).  Rows that grew, every added
+   site read in its context; each is restated with its guard in Model/ReviewedSites.v and proved unreachable in
+   Proofs/ReviewedSitesProofs.v (theorems c12_reviewed_* of Props/C12.v), its text pinned in `modelled_expected`:
+     semantic/resolver/names.rs   unwrap 11 -> 12   `rel.pop_front().1.unwrap()` in resolve_ident (d92afac): rel has
+                                  current_module_path.len() + ident.path.len() path parts, the loop pops
+                                  current_module_path.len() times                          (c12_reviewed_names_relative)
+     sql/pq/preprocess.rs         index_lit 6 -> 8  `args[0]`, `args[1]` in only_equals (e9c9719) under
+                                  `args.len() == 2`                                        (c12_reviewed_only_equals)
+     sql/pq/preprocess.rs         index 10 -> 14    `pipeline[position + 1..]` in distinct (bc8ad7d), `res[position]`
+                                  in used_behind, `used_behind[position]` in except and intersect (21d8d82): position
+                                  comes from enumerate() over the pipeline the table was sized by
+                                                                (c12_reviewed_rest_behind, c12_reviewed_table_at)
+     sql/pq/preprocess.rs         unwrap 10 -> 11   `ctx.anchor.relation_instances.get(with).unwrap()` in
+                                  only_these_used (bc8ad7d): `with` is the RIId of a SqlTransform::Join; RIIds are made
+                                  only by AnchorContext::create_relation_instance, which inserts the instance, and
+                                  nothing removes from relation_instances (same reliance as the three existing
+                                  `relation_instances.get(..).unwrap()` of this file: lines 99, 431, 551).  NOT
+                                  modelled: an invariant of the anchor context, not a local guard.
+     semantic/lowering.rs         unwrap 41 -> 40 (287b286 removed two, 7911778 added one): `name.as_single().unwrap()`
+                                  in lookup_cid on a value built as RelationColumn::Single(Some(..)) a few lines
+                                  above                                                    (c12_reviewed_lookup_cid_name)
+   Rows that shrank: lowering.rs panic 1 -> 0 (7911778), utils/id_gen.rs unwrap 1 -> 0 (79f4a51), postprocess.rs
+   index 7 -> 6.  arith 11 -> 14: the newly modelled functions (codegen/mod.rs consume / reset_line, preprocess.rs
+   `position + 1`) -- all restated in Model/WidthArith.v / Model/ReviewedSites.v.
+   Code under #[cfg(prqlc_verif)] (the verification hooks) is not scanned: it is not compiled in normal builds. *)
+"""
 
 BASELINE_FUNS = """(* recorded count for (file, kind); 0 when absent *)
 Fixpoint lookup (f k : str) (tbl : list (str * str * N)) : N :=
